@@ -127,6 +127,22 @@ def gen_value(r, sec, key, kind, src):
     return (d, d)
 
 
+# paired flags as the manual lists them ("--x or --no-x"): (switching on, switching off)
+DOC_BOOL_FLAGS = {
+    ('general', 'copy-theme-extras'): (['--copy-theme-extras'], ['--no-theme-extras']),
+    ('general', 'load-tex-packages'): (['--load-tex-packages'], ['--no-load-tex-packages']),
+    ('images', 'enabled'): (['--enable-images'], ['--disable-images']),
+    ('images', 'cache'): (['--enable-image-cache'], ['--disable-image-cache']),
+    ('images', 'save-file'): (['--save-image-file'], ['--delete-image-file']),
+    ('images', 'transparent'): (['--transparent-images'], ['--opaque-images']),
+    ('html5', 'use-theme-css'): (['--use-theme-css'], ['--no-theme-css']),
+    ('html5', 'use-theme-js'): (['--use-theme-js'], ['--no-theme-js']),
+    ('html5', 'display-toc'): (['--display-toc'], ['--no-display-toc']),
+    ('html5', 'use-mathjax'): (['--use-mathjax'], ['--no-mathjax']),
+    ('html5', 'mathjax-dollars'): (['--dollars'], ['--no-dollars']),
+}
+
+
 def gen_case(r):
     cat = catalogue()
     nfiles = r.choice([0, 1, 1, 2, 3])
@@ -152,6 +168,9 @@ def gen_case(r):
             if kind == 'bool':
                 en = [f for f in flags if not f.startswith('!')]
                 dis = [f[1:] for f in flags if f.startswith('!')]
+                # the documented pairs (Doc/command.tex) decide which flag switches on and which off, not the declaration under test
+                if (sec, key) in DOC_BOOL_FLAGS:
+                    en, dis = [list(x) for x in DOC_BOOL_FLAGS[(sec, key)]]
                 if val is False and not dis:
                     continue
                 argv.append([sec, key, kind, r.choice(en) if val else r.choice(dis), val])
